@@ -31,8 +31,8 @@ TRUSTED = ['CPython str methods used by the reader (strip, split, startswith, in
            'tools/props/c10.py render_gb == C10_Model.render_gb (checked per case by length and a polynomial hash)']
 ASSUMPTIONS = ['Python str restricted to Latin-1 code points; domain texts are printable ASCII',
                'domain = wf_C10: files rendered by render_gb from well-formed abstract records (plus the two error classes of C10_read_errors); '
-               'multi-line quoted values without blanks, '
-               "feature keys not starting with 'origin', no key named like a mapping method (open finding F20)"]
+               'pieces of a multi-line quoted value without blanks or double quotes at their ends, '
+               "feature keys of at most 15 characters not starting with 'origin', no key named like a mapping method (open finding F20)"]
 NO_SHRINK = False
 MODELLED_FUNCS = {'sugar/_io/genbank.py': ['_split_toplevel', '_parse_locs', '_parse_single_loc', 'read_fts_genbank', 'iter_genbank'],
                   'sugar/core/fts.py': ['Location.__init__', 'LocationTuple.__new__', 'Feature.__init__']}
@@ -1225,15 +1225,15 @@ LEVEL_TEXT = ('Machine-checked Coq theorems about the Gallina model of sugar/_io
               'well-formed has a feature on both strands: ValueError from that record; or it has features but no ORIGIN line: AssertionError at //; '
               'with fts excluded both kinds of record are inside the domain of C10_read_render and read normally). The tie of the model to the '
               'Python code (and the read/iter_/read_fts dispatch in sugar/_io/main.py) is differential testing on rendered and mutated files on every run.')
-LEVEL_NOTE = ('All 22 theorems are closed under the global context. Proved for all inputs: C10_read_render, C10_view_spec, C10_exclude_exact, '
+LEVEL_NOTE = ('All 23 theorems are closed under the global context. Proved for all inputs: C10_read_render, C10_view_spec, C10_exclude_exact, '
               'C10_read_fts_agrees, C10_parse_print_loc, C10_single_loc_spec, C10_loc_sem, C10_split_toplevel, C10_feature_locs, C10_sort_locs, '
               'C10_wrapped_loc, C10_feature_table (replaces the location-only C10_feature_table_locs_partial), C10_quals_dict, C10_header_attrs, '
-              'C10_parse_total, C10_reader_total, C10_exclude_any_text, C10_read_errors, C10_err_class_spec, C10_strand_order, C10_remote_rejected; C10_read_render_box (finite box by computation, kept as a regression anchor, '
+              'C10_parse_total, C10_reader_total, C10_exclude_any_text, C10_wf_no_nl, C10_read_errors, C10_err_class_spec, C10_strand_order, C10_remote_rejected; C10_read_render_box (finite box by computation, kept as a regression anchor, '
               'subsumed by C10_read_render; formerly named ..._box_partial). Tested only (correspondence): that sugar.read / iter_ / read_fts behave '
               'as the modelled iter_genbank / read_fts_genbank (incl. the dispatch and BioBasket/FeatureList wrapping), and that the Python renderer '
-              'equals the Coq renderer (length + hash per case). wf_C10 contains two checked side conditions that are implied by its character classes '
-              'but kept as booleans instead of being proved: no rendered line contains a newline, and ORIGIN line numbers are digit strings of '
-              'at most 9 characters (fewer than 10^9 residues). Numbers in locations and numeric qualifiers are the digit strings of the file; '
+              'equals the Coq renderer (length + hash per case). The side condition of wf_C10 that no rendered line contains a newline is proved from the character classes (C10_wf_no_nl: wf_C10 is '
+              'a non-empty list of well-formed records); one checked side condition remains a boolean: ORIGIN line numbers are digit strings of '
+              'at most 9 characters (fewer than 10^9 residues; that dec_of_nat yields digits is implied but not proved). Numbers in locations and numeric qualifiers are the digit strings of the file; '
               'their value is the Horner value dval (int() of a digit string is proved equal to it). Domain after round 7: qualifier keys may '
               'repeat (dict semantics: first position, last value - part of the view), header fields are observables (record metadata '
               'meta._genbank with nested Attr for sub-fields, REFERENCE dropped; repeated field names and sub-fields of any field are generated), '
